@@ -765,6 +765,10 @@ def run_module(ctx, m, text, cases, stats, quick_sweeps):
                 if mdom[i] == "in": stats["in_domain"] += 1
         if want_ok: stats["valid"] += 1
         else: stats["invalid"] += 1
+        if len(ctx.cov["samples"]) < 10 and (i % 97 == 0 or (kind.startswith("single") and stats["cases"][kind] == 1)):
+            ctx.cov["samples"].append({"module": m["name"], "type": " ".join(ttext(t).split())[:200], "kind": kind, "op": line[:300],
+                                       "c": str(o)[:200], "model": mver[i], "spec": msat[i], "oracle": "valid" if want_ok else [f"{'/'.join(map(str, p))}:{w}" for p, w in viols][:4],
+                                       "in_proved_domain": mdom[i]})
     # ---- errbuf sweep on a few rejected values of this module
     rej = [i for i, o in zip(idx, couts) if o and o.startswith("fail")]
     ctx.rng.shuffle(rej)
@@ -854,12 +858,19 @@ def make_cases(ctx, m, nvalid, cap_per_type, multi):
             try: vs = violations(t, mv, env)
             except Exception: continue
             if len(vs) >= 2: cases.append((n, mv, "several", tuple(x[0] for x in vs)))
+    if m["name"] == "SHP":
+        # the 8-bit alphabets exhaustively: every single-octet string, skeleton checkers and generated tables / loops
+        pick = {"IA1", "VS1", "PS1", "NS1", "PS2", "NS3", "IA3", "VS3"}
+        for n, t in m["types"]:
+            if t["k"] in ("IA5String", "VisibleString", "PrintableString", "NumericString") and in_ranges(ranges(t.get("size")), 1) \
+               and (n in pick or not ctx.quick):
+                for c in range(256): cases.append((n, bytes([c]), "alphabet-exhaustive", ((),)))
     return [(n, c_view(env[n], v, env), kind, pl) for n, v, kind, pl in cases]
 
 def run(ctx):
     findings(ctx)
     tabs = c08_tables.write()
-    ctx.cov["exhaustive"] = {"alphabet_tables": "256 entries each, decide +kernel", "extracted": {k: (v if not isinstance(v, list) or len(v) < 20 else f"{len(v)} entries") for k, v in tabs.items()}}
+    ctx.cov["alphabet_tables"] = {"checked": "every one of the 256 octets, by decide +kernel in Props/C08.lean", "extracted": {k: (v if not isinstance(v, list) or len(v) < 20 else f"{len(v)} entries") for k, v in tabs.items()}}
     ctx.lean()
     quick = ctx.quick
     stats = collections.Counter()
@@ -869,7 +880,7 @@ def run(ctx):
     gfind.replay_witnesses(ctx, driver_sources=DRIVER_SOURCES)
     shp = shapes_module()
     mods = [(shp, mtext(shp))]
-    for m in gen_modules(ctx, 5 if quick else 40, 9 if quick else 12):
+    for m in gen_modules(ctx, 8 if quick else 40, 9 if quick else 12):
         mods.append((m, genmod.module_text(m)))
     for m, text in mods:
         is_shp = m is shp
@@ -889,6 +900,7 @@ def run(ctx):
     ctx.cov["predicate"]["errbuf"] = {"sweep_points": stats["sweep_points"], "failures": stats["sweep_bad"]}
     ctx.cov["distribution"]["case_kinds"] = dict(stats["cases"])
     ctx.cov["programs"] = stats["modules"]
+    ctx.cov["disagreements_checked"] = ctx.cov["correspondence"].get("check", {}).get("disagreements", 0) + ctx.cov["correspondence"].get("errbuf", {}).get("disagreements", 0)
     ctx.cov["rule"] = ("generated modules (non-extensible constraints) x valid values, single planted violations at every constrained position / bound / side, several violations; "
                        "non-trivial = C's verdict equals the X.680 oracle and the message contract holds")
     ctx.log(f"modules={stats['modules']} cases={stats['P_cases']} valid={stats['valid']} violating={stats['invalid']} in-domain-correct={stats['in_domain']} "
